@@ -1,0 +1,7 @@
+//go:build !verif
+
+package mtproto
+
+// verifPoint marks a named yield point for the external verification harness; without the verif build tag it is
+// an empty function.
+func verifPoint(name string, args ...any) {}
